@@ -2,58 +2,72 @@ package props
 
 import (
 	"encoding/hex"
+	"encoding/json"
 	"fmt"
+	"sort"
 	"strings"
 	"time"
 
+	"github.com/enfein/mieru/v3/apis/trafficpattern"
 	"github.com/enfein/mieru/v3/pkg/appctl/appctlpb"
+	"github.com/enfein/mieru/v3/pkg/common"
+	"google.golang.org/protobuf/proto"
 	"verifharness/core"
 	"verifharness/sim"
-	"verifharness/simnet"
 	"verifharness/wire"
 )
 
-// C16, wire stage: explicitly configured traffic-pattern values are what the emitted traffic
-// exhibits. Real sessions run over the in-memory network with patterns known to the harness; every
-// emitted segment is decoded with the reference codec and compared with the EXPLICIT fields of the
-// emitting side's pattern:
+// C16, wire stage: the traffic-pattern values are what the emitted traffic exhibits. Real sessions run over
+// the in-memory network with patterns known to the harness; every emitted segment is decoded with the
+// reference codec and compared with the EFFECTIVE pattern of the emitting side (computed with the real
+// NewConfig; its agreement with the model is the configuration stage's job), i.e. explicit AND implicit values:
 //   * padding: prefixLen ≤ maxMiddlePaddingLen, suffixLen ≤ maxEndPaddingLen (0 ⇒ none)
-//   * low entropy: client data segments are type 10 with the configured mode/rotation iff the
-//     client's mode is explicit and ≠ OFF, never if explicitly OFF; server type 11 only if the server's
-//     mode is on AND that client already used type 10 ("server only after client")
-//   * nonce prefix: PRINTABLE / PRINTABLE_SUBSET ⇒ at least minLen leading bytes in the class, FIXED ⇒
-//     starts with one of the configured prefixes; on UDP only the first datagram of an underlay unless
-//     applyToAllUDPPacket
-//   * TCP fragmentation explicitly disabled ⇒ every Write call carries whole segments
+//   * low entropy: per session, the history of received / emitted data segments IN CAPTURE ORDER is accepted
+//     by the model's session machine (pw-le-check): client segments are type 10 with the configured mode and
+//     rotation iff the client's mode is on; a server's type 11 only after that session received a type 10
+//     ("server only after client") — on TCP the two directions are ordered by a global Write counter
+//   * nonce prefix: PRINTABLE ⇒ the first minLen bytes in 0x20..0x7e, PRINTABLE_SUBSET ⇒ in the exact
+//     Common64Set, FIXED ⇒ one of the configured prefixes; TCP: the first segment of each direction; UDP: the
+//     first datagram of each socket (both sides), every datagram iff applyToAllUDPPacket, and — where a random
+//     nonce cannot look patterned (FIXED prefix ≥ 8 bytes) — NO later datagram of a client socket otherwise
+//   * TCP fragmentation: not enabled ⇒ every Write ends at a segment end; enabled ⇒ the session segments are
+//     cut into pieces the model's acceptor accepts (pw-frag-ok)
 
-const common64 = "0123456789ABCDEFGHIJKLMNOPQRSTUVWXYZabcdefghijklmnopqrstuvwxyz-_" // checked against the code below
+type c16WireCase struct {
+	Stage         string          `json:"stage"` // "c16wire"
+	Name          string          `json:"name"`
+	UDP           bool            `json:"udp"`
+	Seed          int64           `json:"seed"`
+	MTU           int             `json:"mtu,omitempty"`
+	ClientPattern json.RawMessage `json:"client_pattern"`
+	ServerPattern json.RawMessage `json:"server_pattern"`
+	Scripts       []sim.Script    `json:"scripts"`
+}
 
-func printable(b byte) bool { return b >= 0x20 && b <= 0x7e }
+func c16InWireClass(ty appctlpb.NonceType, b byte) bool {
+	switch ty {
+	case appctlpb.NonceType_NONCE_TYPE_PRINTABLE:
+		return b >= common.PrintableCharSub && b <= common.PrintableCharSup
+	case appctlpb.NonceType_NONCE_TYPE_PRINTABLE_SUBSET:
+		return strings.IndexByte(common.Common64Set, b) >= 0 // the exact set (cross-checked against ToCommon64Set in the tie stage)
+	}
+	return false
+}
 
+// c16CheckNonce: does the nonce carry the (effective) pattern? "" = yes.
 func c16CheckNonce(p *appctlpb.NoncePattern, nonce []byte) string {
-	if p == nil || p.Type == nil {
+	if p == nil {
 		return ""
 	}
-	minLen := 0
-	if p.MinLen != nil {
-		minLen = int(p.GetMinLen())
-	}
-	if p.MaxLen != nil && int(p.GetMaxLen()) < minLen {
+	minLen := int(p.GetMinLen())
+	if int(p.GetMaxLen()) < minLen {
 		minLen = int(p.GetMaxLen())
 	}
 	switch p.GetType() {
-	case appctlpb.NonceType_NONCE_TYPE_PRINTABLE:
+	case appctlpb.NonceType_NONCE_TYPE_PRINTABLE, appctlpb.NonceType_NONCE_TYPE_PRINTABLE_SUBSET:
 		for i := 0; i < minLen && i < len(nonce); i++ {
-			if !printable(nonce[i]) {
-				return fmt.Sprintf("nonce byte %d (0x%02x) is not printable although type PRINTABLE with minLen %d is configured", i, nonce[i], minLen)
-			}
-		}
-	case appctlpb.NonceType_NONCE_TYPE_PRINTABLE_SUBSET:
-		for i := 0; i < minLen && i < len(nonce); i++ {
-			c := nonce[i]
-			ok := (c >= '0' && c <= '9') || (c >= 'A' && c <= 'Z') || (c >= 'a' && c <= 'z') || !isAlnumOnlySet() && printable(c)
-			if !ok {
-				return fmt.Sprintf("nonce byte %d (0x%02x) is outside the printable subset although minLen %d is configured", i, c, minLen)
+			if !c16InWireClass(p.GetType(), nonce[i]) {
+				return fmt.Sprintf("nonce %x: byte %d (0x%02x) is outside the class of nonce type %v although minLen %d is in force", nonce, i, nonce[i], p.GetType(), minLen)
 			}
 		}
 	case appctlpb.NonceType_NONCE_TYPE_FIXED:
@@ -66,209 +80,336 @@ func c16CheckNonce(p *appctlpb.NoncePattern, nonce []byte) string {
 				return ""
 			}
 		}
-		return fmt.Sprintf("nonce %x starts with none of the configured fixed prefixes %v", nonce[:12], p.GetCustomHexStrings())
+		return fmt.Sprintf("nonce %x starts with none of the configured fixed prefixes %v", nonce, p.GetCustomHexStrings())
 	}
 	return ""
 }
 
-// the subset's exact alphabet is an implementation detail; accept any printable byte unless the set
-// is known to be alphanumeric-only (conservative: never alarms on a correct implementation)
-func isAlnumOnlySet() bool { return false }
-
-type c16Seg struct {
-	seg    *wire.Segment
-	c2s    bool
-	first  bool // first segment of its direction on its underlay (carries the nonce on TCP)
-	client string
+// c16UnmistakablePrefix: a FIXED pattern whose every prefix has ≥ 8 bytes — a random nonce matches with
+// probability ≤ 2^-64, so "does not carry the pattern" is observable.
+func c16UnmistakablePrefix(p *appctlpb.NoncePattern) bool {
+	if p.GetType() != appctlpb.NonceType_NONCE_TYPE_FIXED || len(p.GetCustomHexStrings()) == 0 {
+		return false
+	}
+	for _, h := range p.GetCustomHexStrings() {
+		if len(h) < 16 {
+			return false
+		}
+	}
+	return true
 }
 
-func c16CheckSegments(c *core.Ctx, segs []c16Seg, cp, sp *appctlpb.TrafficPattern, udp bool, replay interface{}) {
-	clientUsedLE := map[string]bool{}
-	seenNonce := map[string]bool{}
-	for _, x := range segs {
-		s := x.seg
-		pat := sp
-		side := "server"
-		if x.c2s {
-			pat, side = cp, "client"
+type c16Ev struct {
+	key  int64 // position in the capture order
+	c2s  bool
+	seg  *wire.Segment
+	sess uint32
+}
+
+func c16Effective(p *appctlpb.TrafficPattern) *appctlpb.TrafficPattern {
+	cfg, err := trafficpattern.NewConfig(proto.Clone(p).(*appctlpb.TrafficPattern))
+	if err != nil {
+		return nil
+	}
+	return cfg.Effective()
+}
+
+func c16EvTokens(evs []c16Ev, serverRole bool) string {
+	var t []string
+	for _, e := range evs {
+		emitted := e.c2s != serverRole
+		if emitted {
+			if e.seg.IsLE() {
+				t = append(t, fmt.Sprintf("s%d:%d:%d", e.seg.Proto, e.seg.Byte1, e.seg.LERot))
+			} else {
+				t = append(t, fmt.Sprintf("s%d:0:0", e.seg.Proto))
+			}
+		} else if serverRole { // what a client receives never matters to its decision
+			t = append(t, fmt.Sprintf("r%d", e.seg.Proto))
 		}
-		c.Hist("wire_checked", side)
-		if pat != nil && pat.Padding != nil {
-			if pat.Padding.MaxMiddlePaddingLen != nil && !s.IsSession() && int(s.PrefixLen) > int(pat.Padding.GetMaxMiddlePaddingLen()) {
-				c.Violate("C16/wire/middle-padding-exceeds-configured", fmt.Sprintf("%s emitted a type-%d segment with %d bytes of middle padding, configured maximum %d", side, s.Proto, s.PrefixLen, pat.Padding.GetMaxMiddlePaddingLen()), replay)
+	}
+	if len(t) == 0 {
+		return "-"
+	}
+	return strings.Join(t, ",")
+}
+
+// c16CheckLowEntropy: per session, the data segments in capture order against the model's session machine
+// and against the rule itself.
+func c16CheckLowEntropy(c *core.Ctx, evs []c16Ev, cEff, sEff *appctlpb.TrafficPattern, k c16WireCase) {
+	bySess := map[uint32][]c16Ev{}
+	for _, e := range evs {
+		if e.seg.IsData() && len(e.seg.Payload) > 0 {
+			bySess[e.sess] = append(bySess[e.sess], e)
+		}
+	}
+	for sess, l := range bySess {
+		sort.SliceStable(l, func(i, j int) bool { return l[i].key < l[j].key })
+		for _, role := range []bool{false, true} { // false: the client's machine, true: the server's
+			eff := cEff
+			if role {
+				eff = sEff
 			}
-			if pat.Padding.MaxEndPaddingLen != nil && int(s.SuffixLen) > int(pat.Padding.GetMaxEndPaddingLen()) {
-				c.Violate("C16/wire/end-padding-exceeds-configured", fmt.Sprintf("%s emitted a type-%d segment with %d bytes of end padding, configured maximum %d", side, s.Proto, s.SuffixLen, pat.Padding.GetMaxEndPaddingLen()), replay)
+			le := eff.GetLowEntropy()
+			m := c.Model.Ask("pw-le-check %s P P %d %d %s", c16b01(!role), int32(le.GetMode()), int32(le.GetMaskRotation()), c16EvTokens(l, role))
+			c.Compared()
+			if m != "ok" {
+				c.Disagree("C16/corr/wire-low-entropy-history", fmt.Sprintf("session %08x, %s role: the model's session machine does not accept the captured history (%s): %s", sess, map[bool]string{false: "client", true: "server"}[role], m, c16EvTokens(l, role)), k)
 			}
 		}
-		if s.IsData() && len(s.Payload) > 0 {
-			if x.c2s && s.IsLE() {
-				clientUsedLE[x.client] = true
+		// the rule itself, on the real traffic
+		clientUsed := false
+		for _, e := range l {
+			s := e.seg
+			eff, side := sEff, "server"
+			if e.c2s {
+				eff, side = cEff, "client"
 			}
-			if pat != nil && pat.LowEntropy != nil && pat.LowEntropy.Mode != nil {
-				mode := pat.LowEntropy.GetMode()
-				if mode == appctlpb.LowEntropyMode_LOW_ENTROPY_MODE_OFF && s.IsLE() {
-					c.Violate("C16/wire/low-entropy-used-although-off", fmt.Sprintf("%s emitted type %d although its low-entropy mode is explicitly OFF", side, s.Proto), replay)
+			mode := eff.GetLowEntropy().GetMode()
+			c.Hist("wire_data_segments", fmt.Sprintf("%s le=%v", side, s.IsLE()))
+			if e.c2s && s.IsLE() {
+				clientUsed = true
+			}
+			if !e.c2s && s.IsLE() && !clientUsed {
+				c.Violate("C16/wire/server-low-entropy-before-client", fmt.Sprintf("session %08x: the server emitted a low-entropy data segment before any low-entropy segment of that client had been written", sess), k)
+			}
+			if mode == appctlpb.LowEntropyMode_LOW_ENTROPY_MODE_OFF && s.IsLE() {
+				c.Violate("C16/wire/low-entropy-used-although-off", fmt.Sprintf("%s emitted type %d although its low-entropy mode is OFF", side, s.Proto), k)
+			}
+			if mode != appctlpb.LowEntropyMode_LOW_ENTROPY_MODE_OFF {
+				if e.c2s && !s.IsLE() {
+					c.Violate("C16/wire/low-entropy-not-used", fmt.Sprintf("client emitted plain data type %d although low-entropy mode %v is in force", s.Proto, mode), k)
 				}
-				if mode != appctlpb.LowEntropyMode_LOW_ENTROPY_MODE_OFF {
-					if x.c2s && !s.IsLE() {
-						c.Violate("C16/wire/low-entropy-not-used", fmt.Sprintf("client emitted plain data type %d although low-entropy mode %v is configured", s.Proto, mode), replay)
-					}
-					if s.IsLE() && int(s.Byte1) != int(mode) {
-						c.Violate("C16/wire/low-entropy-mode-differs", fmt.Sprintf("%s emitted low-entropy mode %d, configured %v", side, s.Byte1, mode), replay)
-					}
-					if s.IsLE() && pat.LowEntropy.MaskRotation != nil && int(s.LERot) != int(pat.LowEntropy.GetMaskRotation()) {
-						c.Violate("C16/wire/low-entropy-rotation-differs", fmt.Sprintf("%s emitted rotation %d, configured %d", side, s.LERot, pat.LowEntropy.GetMaskRotation()), replay)
-					}
+				if s.IsLE() && int(s.Byte1) != int(mode) {
+					c.Violate("C16/wire/low-entropy-mode-differs", fmt.Sprintf("%s emitted low-entropy mode %d, configured %v", side, s.Byte1, mode), k)
 				}
-			}
-			if !x.c2s && s.IsLE() && !clientUsedLE[x.client] {
-				c.Violate("C16/wire/server-low-entropy-before-client", "server emitted a low-entropy data segment towards a client that had not used low entropy", replay)
-			}
-		}
-		// nonce prefix
-		if pat != nil && pat.Nonce != nil {
-			key := fmt.Sprintf("%s/%v", x.client, x.c2s)
-			check := false
-			if udp {
-				// only the client's own cipher applies the pattern once per underlay; the server's
-				// per-user ciphers are cloned per datagram, so only applyToAll is checkable there
-				if pat.Nonce.GetApplyToAllUDPPacket() {
-					check = true
-				} else if x.c2s && !seenNonce[key] {
-					check = true
-				}
-			} else if x.first {
-				check = true
-			}
-			seenNonce[key] = true
-			if check {
-				if msg := c16CheckNonce(pat.Nonce, s.Nonce); msg != "" {
-					c.Violate("C16/wire/nonce-prefix", side+": "+msg, replay)
+				if s.IsLE() && int(s.LERot) != int(eff.GetLowEntropy().GetMaskRotation()) {
+					c.Violate("C16/wire/low-entropy-rotation-differs", fmt.Sprintf("%s emitted rotation %d, configured %d", side, s.LERot, eff.GetLowEntropy().GetMaskRotation()), k)
 				}
 			}
 		}
 	}
 }
 
+func c16CheckPadding(c *core.Ctx, s *wire.Segment, eff *appctlpb.TrafficPattern, side string, k c16WireCase) {
+	c.Hist("wire_checked", side)
+	pd := eff.GetPadding()
+	if !s.IsSession() && int(s.PrefixLen) > int(pd.GetMaxMiddlePaddingLen()) {
+		c.Violate("C16/wire/middle-padding-exceeds-configured", fmt.Sprintf("%s emitted a type-%d segment with %d bytes of middle padding, maximum in force %d", side, s.Proto, s.PrefixLen, pd.GetMaxMiddlePaddingLen()), k)
+	}
+	if int(s.SuffixLen) > int(pd.GetMaxEndPaddingLen()) {
+		c.Violate("C16/wire/end-padding-exceeds-configured", fmt.Sprintf("%s emitted a type-%d segment with %d bytes of end padding, maximum in force %d", side, s.Proto, s.SuffixLen, pd.GetMaxEndPaddingLen()), k)
+	}
+}
+
+func c16WireRun(c *core.Ctx, k c16WireCase) {
+	cp, sp := patFromJSON(k.ClientPattern), patFromJSON(k.ServerPattern)
+	cfg := sim.Config{UDP: k.UDP, MTU: k.MTU, Seed: k.Seed, ClientPattern: cp, ServerPattern: sp}
+	w, err := sim.NewWorld(cfg)
+	if err != nil {
+		c.Violate("C16/wire/valid-pattern-does-not-run", "a valid traffic pattern was rejected at start-up: "+err.Error(), k)
+		return
+	}
+	defer bgClose.Go(w.Close)
+	order := newC16Order()
+	if !k.UDP {
+		w.Net.StreamFilter = order.filter
+	}
+	tr := sim.RunTransfer(w, k.Scripts, k.Seed, 90*time.Second)
+	c.Eval(fmt.Sprintf("c16-wire/%s/%v/%d", k.Name, k.UDP, k.Seed), true)
+	c.Hist("wire_world", fmt.Sprintf("%s %s", map[bool]string{true: "udp", false: "tcp"}[k.UDP], k.Name))
+	for _, f := range tr.Check(k.Scripts) {
+		c.Violate("C16/wire/valid-pattern-does-not-run", "transfer under a valid traffic pattern failed: "+f, k)
+	}
+	cEff, sEff := c16Effective(cp), c16Effective(sp)
+	if cEff == nil || sEff == nil {
+		return
+	}
+	var evs []c16Ev
+	undecodable := false // part of the capture is missing: per-session histories would be incomplete
+	if k.UDP {
+		type sock struct {
+			addr string
+			c2s  bool
+		}
+		count := map[sock]int{}
+		for _, d := range w.DecodeDatagrams() {
+			if d.Err != nil {
+				c.Violate("C16/wire/pattern-not-exhibited", fmt.Sprintf("datagram #%d emitted under the configured pattern cannot be decoded by the reference codec (%v): the traffic does not exhibit the configured low-entropy mode / rotation / lengths", d.Index, d.Err), k)
+				undecodable = true
+				continue
+			}
+			c2s := d.To == "10.8.0.1:8964"
+			client := d.From
+			eff, side := cEff, "client"
+			if !c2s {
+				client, eff, side = d.To, sEff, "server"
+			}
+			evs = append(evs, c16Ev{key: int64(d.Index), c2s: c2s, seg: d.Seg, sess: d.Seg.SessionID})
+			c16CheckPadding(c, d.Seg, eff, side, k)
+			// nonce: per socket (a client underlay has ONE cipher object; the server's first datagram to a
+			// client is the first use of the object it created for that client's session)
+			sk := sock{client, c2s}
+			n := count[sk]
+			count[sk]++
+			np := eff.GetNonce()
+			carries := c16CheckNonce(np, d.Seg.Nonce)
+			switch {
+			case n == 0 || np.GetApplyToAllUDPPacket():
+				c.Hist("wire_nonce", side+" udp must-carry")
+				if carries != "" {
+					c.Violate("C16/wire/nonce-prefix", fmt.Sprintf("%s, datagram %d of its socket (applyToAllUDPPacket=%v): %s", side, n, np.GetApplyToAllUDPPacket(), carries), k)
+				}
+			case c2s && c16UnmistakablePrefix(np):
+				c.Hist("wire_nonce", side+" udp must-not-carry")
+				if carries == "" {
+					c.Violate("C16/wire/nonce-applied-to-later-udp-packets", fmt.Sprintf("client datagram %d of its socket carries a fixed prefix although applyToAllUDPPacket=false (nonce %x)", n, d.Seg.Nonce), k)
+				}
+			}
+		}
+	} else {
+		for _, ds := range w.DecodeStreams() {
+			if ds.Err != nil {
+				c.Violate("C16/wire/pattern-not-exhibited", fmt.Sprintf("conn %d (client→server=%v) emitted under the configured pattern cannot be decoded by the reference codec (%v): the traffic does not exhibit the configured low-entropy mode / rotation / lengths", ds.ConnID, ds.ClientToServer, ds.Err), k)
+				undecodable = true
+				continue
+			}
+			eff, side := sEff, "server"
+			if ds.ClientToServer {
+				eff, side = cEff, "client"
+			}
+			off := int64(0)
+			ends := map[int64]bool{}
+			for j, s := range ds.Segs {
+				start := off
+				off += int64(s.WireLen)
+				ends[off] = true
+				// a received segment counts once its LAST byte was written, an emitted one from its FIRST byte
+				key := order.seqAt(ds.ConnID, ds.ClientToServer, off-1)
+				if !ds.ClientToServer {
+					key = order.seqAt(ds.ConnID, ds.ClientToServer, start)
+				}
+				evs = append(evs, c16Ev{key: key, c2s: ds.ClientToServer, seg: s, sess: s.SessionID})
+				c16CheckPadding(c, s, eff, side, k)
+				if j == 0 { // the only nonce of the direction that is on the wire
+					c.Hist("wire_nonce", side+" tcp first")
+					if msg := c16CheckNonce(eff.GetNonce(), s.Nonce); msg != "" {
+						c.Violate("C16/wire/nonce-prefix", side+": "+msg, k)
+					}
+				}
+				// TCP fragmentation of the segments written through writeWithPossibleFragment (session segments)
+				if s.IsSession() && eff.GetTcpFragment().GetEnable() && off <= int64(ds.Bytes-ds.Pending) {
+					sizes, aligned := order.writesWithin(ds.ConnID, ds.ClientToServer, start, off)
+					ss := make([]string, len(sizes))
+					for i, n := range sizes {
+						ss[i] = fmt.Sprint(n)
+					}
+					c.Hist("wire_tcp_fragment", fmt.Sprintf("%s enabled pieces=%s", side, core.SizeBucket(len(sizes))))
+					m := c.Model.Ask("pw-frag-ok 0 %d %s", s.WireLen, strings.Join(ss, ","))
+					c.Compared()
+					if !aligned || m != "ok true" {
+						c.Disagree("C16/corr/wire-fragment-writes", fmt.Sprintf("conn %d %s: a %d-byte session segment was written as %v (aligned=%v); the model's fragmenter cannot produce that (%s)", ds.ConnID, side, s.WireLen, sizes, aligned, m), k)
+					}
+					if s.WireLen >= 4 && len(sizes) < 2 {
+						c.Violate("C16/wire/tcp-not-fragmented-although-enabled", fmt.Sprintf("conn %d %s: a %d-byte session segment went out in one Write although tcpFragment.enable is in force", ds.ConnID, side, s.WireLen), k)
+					}
+				}
+			}
+			if !eff.GetTcpFragment().GetEnable() {
+				c.Hist("wire_tcp_fragment", side+" disabled")
+				woff := int64(0)
+				for _, wsz := range ds.Writes {
+					woff += int64(wsz)
+					if woff <= int64(ds.Bytes-ds.Pending) && !ends[woff] {
+						c.Violate("C16/wire/tcp-fragmented-although-disabled", fmt.Sprintf("conn %d: a Write call ended at stream offset %d, inside a segment, although tcpFragment.enable=false is in force", ds.ConnID, woff), k)
+						break
+					}
+				}
+			}
+		}
+	}
+	if !undecodable {
+		c16CheckLowEntropy(c, evs, cEff, sEff, k)
+	}
+}
+
+// c16FixedWorlds: the deterministic worlds of every run (TCP and UDP each): padding 0/0; explicit low-entropy
+// modes 1 and 4 with rotations 15 and 240 on the client, on the server only, on both; a FIXED 12-byte nonce
+// with applyToAllUDPPacket true and false; PRINTABLE / PRINTABLE_SUBSET with minLen = maxLen = 12; TCP
+// fragmentation enabled; padding 1 / 254 / 255.
+func c16FixedWorlds() []c16WireCase {
+	hex12 := "160301feedfacecafebeef99"
+	le := func(mode appctlpb.LowEntropyMode, rot appctlpb.LowEntropyMaskRotation) *appctlpb.LowEntropyPattern {
+		return &appctlpb.LowEntropyPattern{Mode: mode.Enum(), MaskRotation: rot.Enum()}
+	}
+	nonce := func(ty appctlpb.NonceType, all bool, mn, mx int32, hx ...string) *appctlpb.NoncePattern {
+		return &appctlpb.NoncePattern{Type: ty.Enum(), ApplyToAllUDPPacket: proto.Bool(all), MinLen: proto.Int32(mn), MaxLen: proto.Int32(mx), CustomHexStrings: hx}
+	}
+	pad := func(a, b int32) *appctlpb.PaddingPattern {
+		return &appctlpb.PaddingPattern{MaxMiddlePaddingLen: proto.Int32(a), MaxEndPaddingLen: proto.Int32(b)}
+	}
+	frag := func(on bool) *appctlpb.TCPFragment {
+		return &appctlpb.TCPFragment{Enable: proto.Bool(on), MaxSleepMs: proto.Int32(0)}
+	}
+	off := appctlpb.LowEntropyMode_LOW_ENTROPY_MODE_OFF
+	m32, m56 := appctlpb.LowEntropyMode_LOW_ENTROPY_MODE_32, appctlpb.LowEntropyMode_LOW_ENTROPY_MODE_56
+	r15, l15 := appctlpb.LowEntropyMaskRotation_LOW_ENTROPY_MASK_ROTATE_RIGHT_15, appctlpb.LowEntropyMaskRotation_LOW_ENTROPY_MASK_ROTATE_LEFT_15
+	type w struct {
+		name string
+		c, s *appctlpb.TrafficPattern
+	}
+	worlds := []w{
+		{"both-LE(c:32/r15,s:56/l15) pad0/0 fixed12(c:all,s:first) frag(c:on)",
+			&appctlpb.TrafficPattern{Seed: proto.Int32(1), TcpFragment: frag(true), Nonce: nonce(3, true, 0, 12, hex12), Padding: pad(0, 0), LowEntropy: le(m32, r15)},
+			&appctlpb.TrafficPattern{Seed: proto.Int32(2), TcpFragment: frag(false), Nonce: nonce(3, false, 0, 12, hex12), Padding: pad(0, 0), LowEntropy: le(m56, l15)}},
+		{"server-only-LE(32/l15) subset12(c:first) printable12(s:all) pad255/255",
+			&appctlpb.TrafficPattern{Seed: proto.Int32(3), TcpFragment: frag(false), Nonce: nonce(2, false, 12, 12), Padding: pad(255, 255), LowEntropy: le(off, 0)},
+			&appctlpb.TrafficPattern{Seed: proto.Int32(4), TcpFragment: frag(false), Nonce: nonce(1, true, 12, 12), Padding: pad(255, 255), LowEntropy: le(m32, l15)}},
+		{"client-only-LE(56/l15) fixed12(c:first,s:all) pad(c:1/254,s:254/1) frag(s:on)",
+			&appctlpb.TrafficPattern{Seed: proto.Int32(5), TcpFragment: frag(false), Nonce: nonce(3, false, 0, 12, hex12), Padding: pad(1, 254), LowEntropy: le(m56, l15)},
+			&appctlpb.TrafficPattern{Seed: proto.Int32(6), TcpFragment: frag(true), Nonce: nonce(3, true, 0, 12, hex12), Padding: pad(254, 1), LowEntropy: le(off, 0)}},
+	}
+	scripts := []sim.Script{
+		{ClientWrites: []int{100, 3000, 20000}, ServerWrites: []int{50, 5000, 20000}, MaxRead: 65536},
+		{ClientWrites: []int{2000, 1}, ServerWrites: []int{1, 2000}, MaxRead: 1500, ClientClose: true},
+	}
+	var out []c16WireCase
+	for i, x := range worlds {
+		for _, udp := range []bool{false, true} {
+			k := c16WireCase{Stage: "c16wire", Name: x.name, UDP: udp, Seed: int64(1000 + i), ClientPattern: patJSON(x.c), ServerPattern: patJSON(x.s), Scripts: scripts}
+			if udp {
+				k.MTU = []int{1280, 1400, 1500}[i%3]
+			}
+			out = append(out, k)
+		}
+	}
+	return out
+}
+
 func init() {
 	core.RegisterExtra("C16", func(c *core.Ctx) {
-		c.Correspondence("wire stage: decoded prefix/suffix lengths, protocol types, low-entropy mode/rotation, nonce prefixes and TCP write boundaries of real sessions vs the explicit fields of each side's traffic pattern")
+		c.Correspondence("wire stage: decoded prefix/suffix lengths, protocol types, low-entropy mode/rotation (per-session histories in capture order vs the model's session machine, pw-le-check), nonce prefixes and TCP write boundaries (pw-frag-ok) of real sessions vs the EFFECTIVE pattern of each side")
+		cases := c16FixedWorlds()
 		n := c.N(12, 150)
-		type wc struct {
-			tcp c01Case
-			udp udpCase
-			isU bool
-		}
-		cases := make([]wc, n)
-		for i := range cases {
+		for i := 0; i < n; i++ {
 			if i%2 == 0 {
-				k := genC01(c.Rand, false)
-				k.MaxChunk = 0
-				k.Multiplex = 0 // one underlay per session: "first segment of a direction" is well defined
-				cases[i] = wc{tcp: k}
+				g := genC01(c.Rand, false)
+				cases = append(cases, c16WireCase{Stage: "c16wire", Name: "random", Seed: g.Seed, ClientPattern: g.ClientPattern, ServerPattern: g.ServerPattern, Scripts: g.Scripts})
 			} else {
-				k := genUDPCase(c.Rand, 30000, false)
-				k.Faults = sim.FaultSpec{Seed: 1}
-				k.Multiplex = 0
-				cases[i] = wc{udp: k, isU: true}
+				g := genUDPCase(c.Rand, 30000, false)
+				cases = append(cases, c16WireCase{Stage: "c16wire", Name: "random", UDP: true, Seed: g.Seed, MTU: g.MTU, ClientPattern: g.ClientPattern, ServerPattern: g.ServerPattern, Scripts: g.Scripts})
 			}
 		}
-		core.Parallel(n, 6, func(i int) {
-			x := cases[i]
-			var cfg sim.Config
-			var scripts []sim.Script
-			var seed int64
-			var rep interface{}
-			if x.isU {
-				k := x.udp
-				cfg = sim.Config{UDP: true, MTU: k.MTU, Seed: k.Seed, ClientPattern: patFromJSON(k.ClientPattern), ServerPattern: patFromJSON(k.ServerPattern)}
-				scripts, seed, rep = k.Scripts, k.Seed, k
-			} else {
-				k := x.tcp
-				cfg = sim.Config{Seed: k.Seed, ClientPattern: patFromJSON(k.ClientPattern), ServerPattern: patFromJSON(k.ServerPattern)}
-				scripts, seed, rep = k.Scripts, k.Seed, k
-			}
-			w, err := sim.NewWorld(cfg)
-			if err != nil {
-				c.Violate("C16/wire/valid-pattern-does-not-run", "a valid traffic pattern was rejected at start-up: "+err.Error(), rep)
-				return
-			}
-			defer bgClose.Go(w.Close)
-			tr := sim.RunTransfer(w, scripts, seed, 90*time.Second)
-			c.Eval(fmt.Sprintf("c16-wire/%v/%d", x.isU, seed), true)
-			for _, f := range tr.Check(scripts) {
-				c.Violate("C16/wire/valid-pattern-does-not-run", "transfer under a valid traffic pattern failed: "+f, rep)
-			}
-			var segs []c16Seg
-			if x.isU {
-				seen := map[string]bool{}
-				for _, d := range w.DecodeDatagrams() {
-					if d.Err != nil {
-						c.Violate("C16/wire/pattern-not-exhibited", fmt.Sprintf("datagram #%d emitted under the configured pattern cannot be decoded by the reference codec (%v): the traffic does not exhibit the configured low-entropy mode / rotation / lengths", d.Index, d.Err), rep)
-						continue
-					}
-					c2s := d.To == "10.8.0.1:8964"
-					client := d.From
-					if !c2s {
-						client = d.To
-					}
-					k := fmt.Sprintf("%s/%v", client, c2s)
-					segs = append(segs, c16Seg{seg: d.Seg, c2s: c2s, first: !seen[k], client: client})
-					seen[k] = true
-				}
-			} else {
-				w.Net.Lock()
-				caps := append([]*simnet.StreamCapture(nil), w.Net.Streams...)
-				w.Net.Unlock()
-				for _, ds := range w.DecodeStreams() {
-					if ds.Err != nil {
-						c.Violate("C16/wire/pattern-not-exhibited", fmt.Sprintf("conn %d (client→server=%v) emitted under the configured pattern cannot be decoded by the reference codec (%v): the traffic does not exhibit the configured low-entropy mode / rotation / lengths", ds.ConnID, ds.ClientToServer, ds.Err), rep)
-						continue
-					}
-					for j, s := range ds.Segs {
-						segs = append(segs, c16Seg{seg: s, c2s: ds.ClientToServer, first: j == 0, client: fmt.Sprint(ds.ConnID)})
-					}
-					// TCP fragmentation explicitly disabled: write boundaries coincide with segment ends
-					pat := cfg.ServerPattern
-					if ds.ClientToServer {
-						pat = cfg.ClientPattern
-					}
-					if pat != nil && pat.TcpFragment != nil && pat.TcpFragment.Enable != nil && !pat.TcpFragment.GetEnable() {
-						ends := map[int]bool{}
-						off := 0
-						for _, s := range ds.Segs {
-							off += s.WireLen
-							ends[off] = true
-						}
-						off = 0
-						for _, wsz := range ds.Writes {
-							off += wsz
-							if off <= ds.Bytes-ds.Pending && !ends[off] {
-								c.Violate("C16/wire/tcp-fragmented-although-disabled", fmt.Sprintf("conn %d: a Write call ended at stream offset %d, inside a segment, although tcpFragment.enable=false", ds.ConnID, off), rep)
-								break
-							}
-						}
-					}
-				}
-				_ = caps
-			}
-			// order: stable by construction (per stream in order; datagrams in emission order)
-			// interleave c2s before s2c of the same client for the "server only after client" rule on TCP
-			if !x.isU {
-				var c2s, s2c []c16Seg
-				for _, s := range segs {
-					if s.c2s {
-						c2s = append(c2s, s)
-					} else {
-						s2c = append(s2c, s)
-					}
-				}
-				segs = append(c2s, s2c...)
-			}
-			c16CheckSegments(c, segs, cfg.ClientPattern, cfg.ServerPattern, x.isU, rep)
-		})
+		core.Parallel(len(cases), 6, func(i int) { c16WireRun(c, cases[i]) })
 		bgClose.Wait(30 * time.Second)
-		_ = strings.Join
+	})
+	core.RegisterReplay("C16", func(c *core.Ctx, raw json.RawMessage) bool {
+		var k c16WireCase
+		if json.Unmarshal(raw, &k) != nil || k.Stage != "c16wire" {
+			return false
+		}
+		c16WireRun(c, k)
+		bgClose.Wait(30 * time.Second)
+		return true
 	})
 }
